@@ -116,11 +116,15 @@ def summary(v):
                         # it is an effect, never the same as `x = x op y` (a freshly built list / number is not shared)
                         effects.append(("aug-name:" + type(st.op).__name__, t.id if False else "", cond,
                                         [v.ev._name_before(t.id, v.cfg.node(st), None), v.term(st.value, at=st)], lc))
-                    elif isinstance(st, ast.Assign) and len(flat) == 1 and isinstance(st.value, ast.Call) and \
-                            any(isinstance(x, str) and x.endswith(":body") for x in lc):
+                    elif isinstance(st, ast.Assign) and any(isinstance(x, str) and x.endswith(":body") for x in lc) and \
+                            t is flat[0]:
                         # inside a try body a call is also made for the exception it may raise: `x = f(a)` and a bare
-                        # `f(a)` (its value built again later) are the same evaluation at this point
-                        effects.append(("expr", "", cond, [v.term(st.value, at=st)], lc))
+                        # `f(a)` (its value built again later) are the same evaluation at this point; `a, b = f(x), g(y)`
+                        # is the two evaluations in that order
+                        vals = [st.value] if isinstance(st.value, ast.Call) else \
+                            [e_ for e_ in st.value.elts if isinstance(e_, ast.Call)] if isinstance(st.value, (ast.Tuple, ast.List)) else []
+                        for e_ in vals:
+                            effects.append(("expr", "", cond, [v.term(e_, at=st)], lc))
                     continue
                 if isinstance(t, ast.Subscript) and isinstance(t.value, ast.Name) and t.value.id in ev._local_names \
                         and t.value.id not in ev._params:
@@ -338,6 +342,14 @@ def _same_terms(va, ta, tb, given=None):
     ctx = va.ctx
     if ctx.eq(ta, tb):
         return True
+    # same constructor / call on both sides: argument by argument (a value that has many independent gated alternatives
+    # inside would otherwise have to be split into all their combinations)
+    ia, ib = ta.single_atom(), tb.single_atom()
+    if ia is not None and ib is not None:
+        (ha, aa), (hb, ab) = ctx.atoms[ia], ctx.atoms[ib]
+        if ha == hb and ha[0] not in ("gphi", "phi") and len(aa) == len(ab) and aa and \
+                all(_same_terms(va, x, y, given) for x, y in zip(aa, ab)):
+            return True
     A, B = alternatives(va, ta), alternatives(va, tb)
     if A is None or B is None or (len(A) == 1 and len(B) == 1):
         return False
@@ -397,7 +409,7 @@ def _same_items(va, a, b):
     return all(_same_terms(va, x, y, given=ca) for x, y in zip(ta, tb))
 
 
-BUDGET_S = 4.0      # per function: beyond it the current form is simply "not proven equivalent"
+BUDGET_S = 8.0      # per function: beyond it the current form is simply "not proven equivalent"
 
 
 def equivalent(repo_cur, repo_ref, qual):
@@ -494,22 +506,28 @@ def _equivalent(repo_cur, repo_ref, qual):
             else:
                 merged.append(it)
         return merged
-    ea, eb = expand_effects(ea, va), expand_effects(eb, vb)
-    rest = list(eb)
-    for k, a in enumerate(ea):
-        hit = None
-        for j, b in enumerate(rest):
-            if _same_items(va, a, b):
-                if all(_imp(va, va.ev._bool("and", [b[2], x[2]]), false_) for x in rest[:j]):
-                    hit = j
-                break_ = False
-                if hit is not None:
-                    break
-        if hit is None:
-            return False, f"effect #{k} ({a[0]}) has no counterpart in the reference form (or not at this position)"
-        rest.pop(hit)
-    if rest:
-        return False, f"the reference form has {len(rest)} more effect(s), first: {rest[0][0]}"
+    def match_effects(ea, eb):
+        rest = list(eb)
+        for k, a in enumerate(ea):
+            hit = None
+            for j, b in enumerate(rest):
+                if _same_items(va, a, b):
+                    if all(_imp(va, va.ev._bool("and", [b[2], x[2]]), false_) for x in rest[:j]):
+                        hit = j
+                    if hit is not None:
+                        break
+            if hit is None:
+                return f"effect #{k} ({a[0]}) has no counterpart in the reference form (or not at this position)"
+            rest.pop(hit)
+        if rest:
+            return f"the reference form has {len(rest)} more effect(s), first: {rest[0][0]}"
+        return None
+    # as they stand first (values are compared argument by argument); only then split into their alternatives
+    if len(ea) != len(eb) or match_effects(ea, eb) is not None:
+        ea, eb = expand_effects(ea, va), expand_effects(eb, vb)
+        why = match_effects(ea, eb)
+        if why is not None:
+            return False, why
     # exits: every exit of one form is matched by an exit of the other with the same kind / type / value whose conditions
     # together are the same predicate
     def grouped(exits):
@@ -565,21 +583,25 @@ def _equivalent(repo_cur, repo_ref, qual):
                     continue
             out.append(it)
         return out
-    xa, xb = expanded(xa, va), expanded(xb, vb)
+    def match_exits(ga, gb):
+        used = set()
+        for a in ga:
+            hit = None
+            for j, b in enumerate(gb):
+                if j not in used and _same_items(va, a, b):
+                    hit = j
+                    break
+            if hit is None:
+                return f"exit `{a[0]} {a[1]}` under {va.show(a[2])[:80]} has no counterpart in the reference form"
+            used.add(hit)
+        if len(used) != len(gb):
+            return "the reference form has an exit without counterpart"
+        return None
     ga, gb = grouped(xa), grouped(xb)
-    if len(ga) != len(gb):
-        # values may differ only by where their gated alternatives sit: compare after pairing by kind
-        pass
-    used = set()
-    for a in ga:
-        hit = None
-        for j, b in enumerate(gb):
-            if j not in used and _same_items(va, a, b):
-                hit = j
-                break
-        if hit is None:
-            return False, f"exit `{a[0]} {a[1]}` under {va.show(a[2])[:80]} has no counterpart in the reference form"
-        used.add(hit)
-    if len(used) != len(gb):
-        return False, "the reference form has an exit without counterpart"
+    if len(ga) != len(gb) or match_exits(ga, gb) is not None:
+        xa, xb = expanded(xa, va), expanded(xb, vb)
+        ga, gb = grouped(xa), grouped(xb)
+        why = match_exits(ga, gb)
+        if why is not None:
+            return False, why
     return True, f"{len(ga)} exits and {len(ea)} effects agree with the reference form"
